@@ -138,6 +138,28 @@ def run_conversions(sig, flavor):
     return recs, calls
 
 
+def run_momattr(sig):
+    """Only the momentum synonyms of one signature, compiled (C14's numba pass): each next to its geometric name."""
+    recs = []
+    n = len(sig) + 1
+    objs = [obj_of([mpf(c) for c in p[:n]], sig, "momentum") for p in POINTS if coords.representable([mpf(c) for c in p[:n]], sig)]
+    GEO = {"px": "x", "py": "y", "pt": "rho", "pt2": "rho2", "pz": "z", "pseudorapidity": "eta", "p": "mag", "p2": "mag2", "E": "t", "e": "t",
+           "energy": "t", "E2": "t2", "e2": "t2", "energy2": "t2", "M": "tau", "m": "tau", "mass": "tau", "M2": "tau2", "m2": "tau2", "mass2": "tau2",
+           "transverse_energy": "Et", "transverse_energy2": "Et2", "transverse_mass": "Mt", "transverse_mass2": "Mt2"}
+    exprs = []
+    for k in range(2, n + 1):
+        for e in MOMENTUM_UNARY[k]:
+            if e in UNSUPPORTED:
+                continue
+            nm = e[2:]
+            exprs.append(e)
+            if nm in GEO:
+                exprs.append(f"{e} - a.{GEO[nm]}")      # exactly zero: a synonym is the same number
+    base = {"op": "extra:momentum-synonyms", "sig": [sig, None], "tag": "numba-extra", "flavors": ["momentum", None], "mixed": "F"}
+    calls = compare_packed(base, exprs, ["a"], [(o,) for o in objs], 1e4, recs)
+    return recs, calls
+
+
 def run_unary(sig, flavor):
     import vector
 
@@ -264,6 +286,8 @@ def run_item(item):
         return run_binary(tuple(item[1]), tuple(item[2]), item[3], item[4])
     if kind == "conv":
         return run_conversions(tuple(item[1]), item[2])
+    if kind == "momattr":
+        return run_momattr(tuple(item[1]))
     return run_constructors(tuple(item[1]))
 
 
